@@ -166,7 +166,5 @@ def _oracle(r, scen, outs, wd):
 
 def replay(ctx, obj):
     if "request" not in obj.get("replay", {}):
-        print(obj.get("what"))
-        print("VIOLATION property=C07 replay=%s no-failing-input-found" % obj.get("rerun", "").split()[-1])
-        return 1
+        return vcore.replay_obligations(ctx, "C07", obj, PROPS, ("verify", "inspections"))
     return vcore.replay(ctx, "C07", obj, oracle=_oracle)
